@@ -49,10 +49,20 @@ struct RunOut {
     final_gallery_entries: usize,
 }
 
-fn drain(pending: &mut Vec<(usize, std::sync::mpsc::Receiver<Vec<(u64, Vec<Rec>)>>)>, out: &mut RunOut) -> bool {
-    for (k, rx) in pending.drain(..) {
+/// pending batch: (operation slot, scene) of every scene it holds + the receiver of its consumer thread
+type Pending = (Vec<(usize, u64)>, std::sync::mpsc::Receiver<Vec<(u64, Vec<Rec>)>>);
+
+fn drain(pending: &mut Vec<Pending>, out: &mut RunOut) -> bool {
+    for (slots, rx) in pending.drain(..) {
         match rx.recv() {
-            Ok(mut v) if v.len() == 1 => out.obs[k] = Obs::Recs(v.pop().unwrap().1),
+            Ok(v) if v.len() == slots.len() => {
+                for (k, scene) in slots {
+                    match v.iter().find(|x| x.0 == scene) {
+                        Some(x) => out.obs[k] = Obs::Recs(x.1.clone()),
+                        None => return false,
+                    }
+                }
+            }
             _ => return false,
         }
     }
@@ -63,14 +73,17 @@ fn drain(pending: &mut Vec<(usize, std::sync::mpsc::Receiver<Vec<(u64, Vec<Rec>)
 /// started before the call; the next batch is submitted without waiting for the previous results (the second retrieval
 /// discipline the batch API allows). Lifecycle operations wait until everything submitted so far has been retrieved.
 /// `keep_pre`: -2 = snapshot the store before every predict, -1 = never, k >= 0 = only before operation k
-fn run(cfg: &Cfg, ops: &[Op], plan: &Plan, pipelined: bool, ctl: Option<&Controller>, rep: &mut Report, keep_pre: i64, wd: Option<&Watchdog>) -> Option<RunOut> {
+/// `groups`: batch kinds only - consecutive predict operations carrying the same group number are submitted as ONE batch
+/// holding several scenes
+fn run(cfg: &Cfg, ops: &[Op], groups: Option<&[usize]>, plan: &Plan, pipelined: bool, ctl: Option<&Controller>, rep: &mut Report, keep_pre: i64, wd: Option<&Watchdog>) -> Option<RunOut> {
     let gated = matches!(plan, Plan::WorkerLast(_) | Plan::WorkerFirst(_));
     if let (Some(w), false) = (wd, gated) {
         w.arm(format!("cfg={:?} plan={:?} pipelined={}", cfg, plan, pipelined));
     }
     let mut trk = AnyTracker::new(cfg);
     let mut out = RunOut { obs: vec![], pres: vec![], epochs: vec![], totals: vec![], final_gallery_entries: 0 };
-    let mut pending = vec![];
+    let mut pending: Vec<Pending> = vec![];
+    let mut grouped_until = 0usize;
     let set_mode = |c: &Controller, ndets: Option<usize>| match (plan, ndets) {
         (Plan::Free, _) => c.set_mode(Mode::Record),
         (Plan::Delay(seed), _) => c.set_mode(Mode::Delay { seed: *seed, intensity: 50, max_sleep_us: 300 }),
@@ -82,6 +95,54 @@ fn run(cfg: &Cfg, ops: &[Op], plan: &Plan, pipelined: bool, ctl: Option<&Control
     }
     let held = |t: &AnyTracker| t.active_stats().iter().sum::<usize>() + t.wasted_stats().iter().sum::<usize>();
     for (k, op) in ops.iter().enumerate() {
+        if k < grouped_until {
+            continue;
+        }
+        // a multi-scene batch: operations k..j
+        if let (Some(g), Op::Predict { .. }) = (groups, op) {
+            let mut j = k + 1;
+            while j < ops.len() && g[j] == g[k] && g[k] != usize::MAX {
+                j += 1;
+            }
+            if j - k >= 2 {
+                let pre = if keep_pre == -2 || (keep_pre >= k as i64 && keep_pre < j as i64) { trk.live() } else { vec![] };
+                let batch: Vec<(u64, Vec<Det>)> = (k..j).map(|i| match &ops[i] { Op::Predict { scene, dets } => (*scene, dets.clone()), _ => unreachable!() }).collect();
+                for (s, _) in &batch {
+                    out.pres.push(pre.clone());
+                    out.epochs.push(if pipelined { 0 } else { trk.epoch(*s) + 1 });
+                }
+                if pipelined {
+                    for _ in k..j {
+                        out.obs.push(Obs::Recs(vec![]));
+                        out.totals.push(None);
+                    }
+                    pending.push(((k..j).zip(batch.iter().map(|b| b.0)).collect(), trk.submit_with_consumer(&batch)));
+                } else {
+                    if let Some(c) = ctl {
+                        set_mode(c, None);
+                    }
+                    let res = trk.predict_batch(&batch);
+                    if let Some(c) = ctl {
+                        let _ = c.finish();
+                    }
+                    for (s, _) in &batch {
+                        match res.iter().find(|x| x.0 == *s) {
+                            Some(x) => out.obs.push(Obs::Recs(x.1.clone())),
+                            None => return None,
+                        }
+                        out.totals.push(None);
+                    }
+                    let n = out.totals.len();
+                    out.totals[n - 1] = Some(held(&trk));
+                }
+                rep.count("multi_scene_batches_submitted");
+                grouped_until = j;
+                if let Some(w) = wd {
+                    w.beat();
+                }
+                continue;
+            }
+        }
         match op {
             Op::Predict { scene, dets } => {
                 out.pres.push(if keep_pre == -2 || keep_pre == k as i64 { trk.live() } else { vec![] });
@@ -89,7 +150,7 @@ fn run(cfg: &Cfg, ops: &[Op], plan: &Plan, pipelined: bool, ctl: Option<&Control
                 if pipelined && !dets.is_empty() {
                     out.obs.push(Obs::Recs(vec![]));
                     out.totals.push(None);
-                    pending.push((k, trk.submit_with_consumer(&[(*scene, dets.clone())])));
+                    pending.push((vec![(k, *scene)], trk.submit_with_consumer(&[(*scene, dets.clone())])));
                 } else {
                     if let (Some(c), false) = (ctl, pipelined) {
                         set_mode(c, Some(dets.len()));
@@ -197,7 +258,7 @@ fn translate(recs: &[Rec], rev: &HashMap<u64, u64>) -> Vec<Rec> {
 fn main() {
     let cli = Cli::parse();
     let mut rep = Report::new("C05", &cli);
-    rep.note("rule", json!("case = Sort / VisualSort / BatchSort / BatchVisualSort history of 20..50 operations (predict calls from the crowd / convoy / crossing / random presets over 1..2 scenes, no bit-identical detections; a third of the histories also contain skip_epochs, wasted and idle_tracks calls, whose return values - and the number of tracks held - are compared as well; some visual histories (two per quick run, a quarter in the thorough tier) have 16 objects whose galleries grow to 285 features - about 4500 distance records per candidate from a single shard -, compared between 1 shard and one of 2 / 3 / 4 / 8 shards). Batch kinds are driven with one-scene batches, sequentially and pipelined (consumer thread per batch, next batch submitted before the previous results are read); their ids are compared up to the incrementally built bijection. Reference run: 1 shard, no perturbation. The same history is then run for every shard count 2..8 under several schedules installed at the guarded worker schedule points: free, seeded random delay plans, and gate scripts that force a chosen worker to deliver all of its distance chunks last (or first), so the arrival order of the partial results - which feeds matrix row/column order and hash-map insertion order - is varied systematically. Records must be identical to the reference, track ids included. A grouping difference is handed to the explain-divergence oracle (violation unless both outcomes are valid optimal associations per the C02 / C12 references = near tie, counted); equal grouping with different numbers or ids is always a violation. Non-trivial: (history, shard count, plan) runs with >= 2 shards whose calls had >= 2 candidates; distinct chunk-arrival-order signatures are counted."));
+    rep.note("rule", json!("case = Sort / VisualSort / BatchSort / BatchVisualSort history of 20..50 operations (predict calls from the crowd / convoy / crossing / random presets over 1..2 scenes, no bit-identical detections; a third of the histories also contain skip_epochs, wasted and idle_tracks calls, whose return values - and the number of tracks held - are compared as well; some visual histories (two per quick run, a quarter in the thorough tier) have 16 objects whose galleries grow to 285 features - about 4500 distance records per candidate from a single shard -, compared between 1 shard and one of 2 / 3 / 4 / 8 shards). Batch kinds are driven with one-scene batches (40% of their histories: multi-scene batches of 2..4 scenes), sequentially and pipelined (consumer thread per batch, next batch submitted before the previous results are read); their ids are compared up to the incrementally built bijection. Reference run: 1 shard, no perturbation. The same history is then run for every shard count 2..8 under several schedules installed at the guarded worker schedule points: free, seeded random delay plans, and gate scripts that force a chosen worker to deliver all of its distance chunks last (or first), so the arrival order of the partial results - which feeds matrix row/column order and hash-map insertion order - is varied systematically. Records must be identical to the reference, track ids included. A grouping difference is handed to the explain-divergence oracle (violation unless both outcomes are valid optimal associations per the C02 / C12 references = near tie, counted); equal grouping with different numbers or ids is always a violation. Non-trivial: (history, shard count, plan) runs with >= 2 shards whose calls had >= 2 candidates; distinct chunk-arrival-order signatures are counted."));
     rep.note("assumptions", json!(["inputs without exact ties (generic float positions); residual near-ties are recognised by the reference objective and counted, capped at 0.1% of compared calls"]));
     let ctl = if cli.small { None } else { Some(Controller::install()) };
     let wd = if cli.small { None } else { Some(Watchdog::start(&cli, "C05", ctl.clone())) };
@@ -248,8 +309,9 @@ fn main() {
             cfg.max_idle = 3;
             rep.count("histories_with_long_galleries(16 objects x 285 features)");
         }
+        let multi = kind.is_batch() && !cli.small && !long_gallery && !wide && rng.chance(0.4);
         let w = WorldOpts {
-            scenes: if long_gallery { 1 } else { 1 + rng.usize(2) },
+            scenes: if long_gallery { 1 } else if multi { 2 + rng.usize(3) } else { 1 + rng.usize(2) },
             same_region: rng.chance(0.3),
             preset: if wide || long_gallery { "random" } else { *rng.pick(&["crowd", "convoy", "crossing", "random", "lookalikes"]) },
             rotated: rng.chance(0.2),
@@ -266,10 +328,36 @@ fn main() {
         };
         let h = HistOpts { len: if cli.small { 3 } else if long_gallery { 600 } else if wide { 6 } else { 20 + rng.usize(31) }, lifecycle_ops: lifecycle, clear_wasted: false, auto_waste_ops: false, batches: false, empty_calls: true };
         let ops = if long_gallery { long_gallery_ops(&mut rng, 16, 285) } else { gen_history(&mut rng, &w, &h) };
+        // batch kinds, 40% of the histories: consecutive calls for different scenes travel in one multi-scene batch
+        let groups: Option<Vec<usize>> = if multi {
+            let mut g = vec![usize::MAX; ops.len()];
+            let (mut cur, mut scenes_in): (usize, Vec<u64>) = (0, vec![]);
+            for (i, op) in ops.iter().enumerate() {
+                match op {
+                    Op::Predict { scene, dets } if !dets.is_empty() && !scenes_in.contains(scene) && scenes_in.len() < 4 => {
+                        scenes_in.push(*scene);
+                        g[i] = cur;
+                    }
+                    Op::Predict { scene, dets } if !dets.is_empty() => {
+                        cur += 1;
+                        scenes_in = vec![*scene];
+                        g[i] = cur;
+                    }
+                    _ => {
+                        cur += 1;
+                        scenes_in.clear();
+                    }
+                }
+            }
+            rep.count("histories_with_multi_scene_batches");
+            Some(g)
+        } else {
+            None
+        };
         let npredict = ops.iter().filter(|o| matches!(o, Op::Predict { .. })).count();
         rep.eval();
         rep.count(&format!("histories/{:?}", kind));
-        let base = match run(&cfg, &ops, &Plan::Free, false, None, &mut rep, if long_gallery { ops.len() as i64 } else { -2 }, wd.as_deref()) {
+        let base = match run(&cfg, &ops, groups.as_deref(), &Plan::Free, false, None, &mut rep, if long_gallery { ops.len() as i64 } else { -2 }, wd.as_deref()) {
             Some(b) => b,
             None => {
                 rep.violation(&format!("C05/{:?}/result-never-delivered", kind), idx, json!({"cfg": cfg.js(), "run": "reference"}));
@@ -303,7 +391,7 @@ fn main() {
                 plans.truncate(1);
             }
             for (plan, pipelined) in plans {
-                let out = match run(&c2, &ops, &plan, pipelined, ctl.as_deref(), &mut rep, -1, wd.as_deref()) {
+                let out = match run(&c2, &ops, groups.as_deref(), &plan, pipelined, ctl.as_deref(), &mut rep, -1, wd.as_deref()) {
                     Some(o) => o,
                     None => {
                         rep.violation(&format!("C05/{:?}/result-never-delivered", kind), idx, json!({"cfg": cfg.js(), "shards": shards, "plan": format!("{:?}", plan), "pipelined": pipelined}));
@@ -348,7 +436,7 @@ fn main() {
                                 // (quiescent) pre-state? A correct pipelined run acts on exactly that state as well.
                                 let bt = translate(b, &rev);
                                 // (long-gallery histories keep no per-call snapshots: the reference is replayed up to this call)
-                                let replay = if long_gallery { run(&cfg, &ops[..=k], &Plan::Free, false, None, &mut rep, k as i64, wd.as_deref()) } else { None };
+                                let replay = if long_gallery { run(&cfg, &ops[..=k], None, &Plan::Free, false, None, &mut rep, k as i64, wd.as_deref()) } else { None };
                                 let pre_k: &Vec<LiveTrack> = match &replay {
                                     Some(r) => &r.pres[k],
                                     None => &base.pres[k],
